@@ -597,8 +597,8 @@ Section WithCore.
       destruct file; try discriminate.
       - apply obind_np; [apply Hf; reflexivity|]. intros k _.
         destruct (load_items K a (c_read K k a bytes)); discriminate.
-      - apply obind_np; [apply Hf; reflexivity | discriminate].
-      - apply obind_np; [apply Hf; reflexivity | discriminate].
+      - apply obind_np; [apply Hf; reflexivity |]. intros k _.
+        destruct (c_read_faulty K desc k a) as [[|] items]; discriminate.
     Qed.
 
     Lemma glue_encode_np sequence protein : glue_encode K sequence protein <> Panic.
